@@ -6,8 +6,8 @@
    statements that are FALSE of the code as it is (witness replayed on the implementation by the
    check); the `_partial`/flat theorems next to them carry the narrowest boolean hypothesis.
    Nesting depth of tables inside cells is bounded by 1 in the source type (`citem`). *)
-From Coq Require Import ZArith List Bool Permutation.
-From S2T Require Import Lib.PyStr C13.Model C13.ProofsHtml C13.ProofsSheets C13.ProofsOds C13.ProofsTree C13.ProofsRtf C13.ProofsOrder C13.ProofsRows.
+From Coq Require Import ZArith List Bool Permutation Floats.SpecFloat.
+From S2T Require Import Lib.PyStr C13.Model C13.ProofsHtml C13.ProofsSheets C13.ProofsOds C13.ProofsTree C13.ProofsRtf C13.ProofsOrder C13.ProofsRows C13.ProofsPos C13.ProofsPptx.
 Import ListNotations.
 Notation length := List.length.
 Notation concat := List.concat.
@@ -352,3 +352,69 @@ Theorem C13_slide_frames_groups : forall t a x l (segs : list (list str * list x
   slide_frames (Elem t a x (flat_map (fun sg => wrap_chain (fst sg) (snd sg)) segs) l) = flat_map snd segs.
 Proof. exact slide_frames_groups. Qed.
 Print Assumptions C13_slide_frames_groups.
+
+(* ---------------------------------------------------------------- position keys (modelled parsers)
+   ODP _parse_odf_length_to_px in IEEE-754 binary64 (SpecFloat); bounds are part of the statements:
+   lengths d/100 <unit>, d = 0..3000, units cm mm in pt pc px and none *)
+Theorem C13_odf_px_strictly_monotone_bounded :
+  forall u, In u UNITS -> forall d : nat, (d < 3000)%nat ->
+  f_ltb (odf_px_value (Z.of_nat d) 2 u) (odf_px_value (Z.of_nat d + 1) 2 u) = true.
+Proof. exact odf_px_strictly_monotone_bounded. Qed.
+Print Assumptions C13_odf_px_strictly_monotone_bounded.
+
+(* "equal lengths in different units get equal keys" is false in floating point (0.01cm vs 0.1mm) ... *)
+Theorem C13_odf_px_equal_lengths_equal_keys_refuted :
+  exists d : Z, f_eqb (odf_px_value d 2 (s "cm")) (odf_px_value d 1 (s "mm")) = false.
+Proof. exact odf_px_equal_lengths_equal_keys_refuted. Qed.
+Print Assumptions C13_odf_px_equal_lengths_equal_keys_refuted.
+
+(* ... but the error never reaches the neighbouring grid point: different lengths in different units
+   are ordered correctly (cm/mm, in/pt, in/px on the same bounded grid) *)
+Theorem C13_odf_px_cross_unit_order_partial :
+  cross_unit_consistent (s "cm") 2 (s "mm") 1 1 1 = true
+  /\ cross_unit_consistent (s "in") 2 (s "pt") 2 1 72 = true
+  /\ cross_unit_consistent (s "in") 2 (s "px") 2 1 96 = true.
+Proof. exact odf_px_cross_unit_order_partial. Qed.
+Print Assumptions C13_odf_px_cross_unit_order_partial.
+
+Theorem C13_odf_px_unusable_is_zero :
+  odf_length_px ws_ascii [] = f_zero /\ odf_length_px ws_ascii (s "-1cm") = f_zero /\ odf_length_px ws_ascii (s "abc") = f_zero.
+Proof. exact odf_px_unusable_is_zero. Qed.
+Print Assumptions C13_odf_px_unusable_is_zero.
+
+(* PPTX _get_shape_position on a table frame: explicit a:off, none, unparsable *)
+Theorem C13_pptx_position_explicit : forall pint xs ys x y g, pint xs = Some x -> pint ys = Some y ->
+  pptx_shape_position pint (pptx_r_frame_at xs ys g) = (y, x).
+Proof. exact pptx_position_explicit. Qed.
+Print Assumptions C13_pptx_position_explicit.
+
+Theorem C13_pptx_position_missing : forall pint g, pptx_shape_position pint (pptx_r_frame g) = PPTX_LAST.
+Proof. exact pptx_position_missing. Qed.
+Print Assumptions C13_pptx_position_missing.
+
+Theorem C13_pptx_table_at : forall is_ws xs ys g,
+  pptx_table is_ws (pptx_r_frame_at xs ys g) = pptx_table is_ws (pptx_r_frame g).
+Proof. exact pptx_table_at. Qed.
+Print Assumptions C13_pptx_table_at.
+
+(* table frames inside (nested) p:grpSp groups are found, in document order *)
+Theorem C13_pptx_slide_shapes_groups : forall segs : list (list str * list (str * str * fgrid)),
+  forallb (fun sg => forallb (fun w => str_eqb w P_GRPSP) (fst sg)) segs = true ->
+  pptx_slide_shapes (E P_SPTREE (flat_map (fun sg => wrap_chain (fst sg) (map rf (snd sg))) segs))
+  = flat_map (fun sg => map rf (snd sg)) segs.
+Proof. exact pptx_slide_shapes_groups. Qed.
+Print Assumptions C13_pptx_slide_shapes_groups.
+
+(* the whole slide: none lost, none invented, whatever the positions; source order when keys do not decrease *)
+Theorem C13_pptx_slide_tables_perm : forall is_ws pint t,
+  Permutation (pptx_slide_tables is_ws pint t)
+    (flat_map (fun sh => if tag_is P_GRAPHICFRAME sh
+                         then match pptx_table is_ws sh with Some tb => if is_nil tb then [] else [tb] | None => [] end
+                         else []) (pptx_slide_shapes t)).
+Proof. exact pptx_slide_tables_perm. Qed.
+Print Assumptions C13_pptx_slide_tables_perm.
+
+Theorem C13_stable_sort_le_sorted_id : forall (A : Type) (le : A -> A -> bool) (l : list A),
+  sorted_le le l = true -> stable_sort_le le l = l.
+Proof. intros A le l. exact (stable_sort_le_sorted_id le l). Qed.
+Print Assumptions C13_stable_sort_le_sorted_id.
